@@ -96,7 +96,12 @@ func (h *udpHandler) OnTraffic(c Conn) Action {
 		binary.BigEndian.PutUint16(reply[2:], uint16(s))
 		binary.BigEndian.PutUint32(reply[4:], uint32(k))
 		binary.BigEndian.PutUint32(reply[8:], uint32(len(b)))
-		switch rng.Intn(4) {
+		switch rng.Intn(5) {
+		case 4:
+			// an empty answer is a datagram too (a keep-alive): exactly one, with no bytes
+			h.rec.emit("DReply", "s", s, "k", k, "kind", "E", "to", s)
+			n, err := c.Write(nil)
+			h.rec.emit("DReplied", "s", s, "k", k, "n", n, "want", 0, "err", errClass(err))
 		case 0, 1:
 			reply[1] = 'W'
 			h.rec.emit("DReply", "s", s, "k", k, "kind", "W", "to", s)
@@ -125,6 +130,11 @@ func (h *udpHandler) OnTraffic(c Conn) Action {
 						to = &net.UDPAddr{IP: ip4.To16(), Port: to.Port}
 					}
 				}
+				if ra, ok := c.RemoteAddr().(*net.UDPAddr); ok && rng.Intn(3) == 0 {
+					// the same host on another port, written into the address object the connection handed out
+					ra.Port = to.Port
+					to = ra
+				}
 				n, err := c.SendTo(reply, to)
 				h.rec.emit("DReplied", "s", s, "k", k, "n", n, "err", errClass(err))
 				if rng.Intn(2) == 0 {
@@ -144,9 +154,9 @@ func (h *udpHandler) OnTraffic(c Conn) Action {
 	return None
 }
 
-func runUDPScenario(t *testing.T, rec *recorder, network, host string, loops int, seed uint64, rep *vsup.Report) {
+func runUDPScenario(t *testing.T, rec *recorder, network, host string, loops int, rcap int, seed uint64, rep *vsup.Report) {
 	rng := vsup.NewRng(seed)
-	rec.emit("Reset", "cfg", fmt.Sprintf("udp %s %s loops=%d", network, host, loops))
+	rec.emit("Reset", "cfg", fmt.Sprintf("udp %s %s loops=%d rcap=%d", network, host, loops, rcap))
 	drops0 := udpKernelDrops()
 	h := &udpHandler{rec: rec, booted: make(chan struct{}), burstAt: -1}
 	pc, err := net.ListenPacket(network, net.JoinHostPort(host, "0"))
@@ -158,7 +168,9 @@ func runUDPScenario(t *testing.T, rec *recorder, network, host string, loops int
 	pc.Close()
 	addr := fmt.Sprintf("%s://%s", network, net.JoinHostPort(host, fmt.Sprint(port)))
 	runErr := make(chan error, 1)
-	go func() { runErr <- Run(h, addr, WithNumEventLoop(loops), WithLogger(nullLogger{})) }()
+	go func() {
+		runErr <- Run(h, addr, WithNumEventLoop(loops), WithLogger(nullLogger{}), WithReadBufferCap(rcap))
+	}()
 	select {
 	case <-h.booted:
 	case err := <-runErr:
@@ -182,6 +194,10 @@ func runUDPScenario(t *testing.T, rec *recorder, network, host string, loops int
 	}
 	var wg sync.WaitGroup
 	sizes := []int{0, 1, 9, 10, 11, 511, 512, 1024, 4096, 65507, 100, 2000}
+	if rcap > 0 {
+		// a small read buffer: payloads up to exactly its size (a power of two) are owed intact
+		sizes = []int{0, 1, 9, 10, 11, 511, 512, rcap / 2, rcap - 1, rcap, rcap, 100}
+	}
 	for s := 1; s <= ns; s++ {
 		// receiver of replies
 		wg.Add(1)
@@ -199,6 +215,10 @@ func runUDPScenario(t *testing.T, rec *recorder, network, host string, loops int
 						continue
 					}
 					return
+				}
+				if n == 0 {
+					rec.emit("DRecv", "by", s, "s", 0, "k", 0, "kind", "E", "len", 0, "ok", true)
+					continue
 				}
 				ok := n == 12 && buf[0] == 0xD7
 				rec.emit("DRecv", "by", s, "s", int(binary.BigEndian.Uint16(buf[2:])), "k", int(binary.BigEndian.Uint32(buf[4:])),
@@ -219,6 +239,9 @@ func runUDPScenario(t *testing.T, rec *recorder, network, host string, loops int
 				n := sizes[r.Intn(len(sizes))]
 				if r.Intn(3) == 0 {
 					n = r.Intn(3000)
+					if rcap > 0 {
+						n = r.Intn(rcap + 1)
+					}
 				}
 				d := mkDgram(s, k, n)
 				// at most 4 datagrams of this sender in flight
@@ -308,8 +331,12 @@ func TestVerifUDP(t *testing.T) {
 	for r := 0; r < vsup.EnvInt("VERIF_ROUNDS", 1); r++ {
 		for _, nw := range [][2]string{{"udp", "127.0.0.1"}, {"udp4", "127.0.0.1"}, {"udp6", "::1"}, {"udp", "::1"}} {
 			for _, loops := range []int{1, 3} {
-				runUDPScenario(t, rec, nw[0], nw[1], loops, rng.Uint64(), rep)
+				runUDPScenario(t, rec, nw[0], nw[1], loops, 0, rng.Uint64(), rep)
 			}
+		}
+		for i, rcap := range []int{2048, 4096} {
+			nw := [][2]string{{"udp4", "127.0.0.1"}, {"udp6", "::1"}}[(i+r)%2]
+			runUDPScenario(t, rec, nw[0], nw[1], 1+2*((i+r)%2), rcap, rng.Uint64(), rep)
 		}
 	}
 	rec.uninstall()
